@@ -41,7 +41,7 @@ CHECKS = {
     "C05": {
         "scenarios": [{"name": "sigmut"}, {"name": "dups"}],
         "accept": ["sigmut:", "liveness:", "dups:"],
-        "technique": "Lean: debit_needs_signature for one block and every chain — a balance of address a can only decrease if a is the input address of a batch (in the block or in holding) that passes Validate at that height, or a special address at its adjustment height (structural theorem with call-site obligations, Proofs/Auth); invalid entry inert on arrival and from holding; key type selected strictly above its activation; single input address; int64 bound. Tie: one validly signed transfer plus hundreds of mutants per key type and era, lock-step, executions counted (incl. batches naming another address as input of their first / last / middle / only transaction under the signer's signature alone); repetition patterns followed by a valid entry",
+        "technique": "Lean: rcde_keys_activate_with_v4 (regenerated constants: fat2 accepts RCD-e keys from the V4 OPR update); Lean: debit_needs_signature for one block and every chain — a balance of address a can only decrease if a is the input address of a batch (in the block or in holding) that passes Validate at that height, or a special address at its adjustment height (structural theorem with call-site obligations, Proofs/Auth); invalid entry inert on arrival and from holding; key type selected strictly above its activation; single input address; int64 bound. Tie: one validly signed transfer plus hundreds of mutants per key type and era, lock-step, executions counted (incl. batches naming another address as input of their first / last / middle / only transaction under the signer's signature alone); repetition patterns followed by a valid entry",
         "assumptions": [ORACLES, "signature soundness (a verdict bit implies the key holder signed) is assumed of fat103 / the crypto libraries"],
         "design_ref": "DESIGN.md §7 C05",
     },
